@@ -14,7 +14,7 @@ struct SchedConfig {
   unsigned preempt_permille = 500;  // probability of considering a switch at a point
   std::vector<uint32_t> choices;    // recorded choices (replay); consumed in order, then `rng_seed` stream continues
   uint64_t rng_seed = 0;
-  uint64_t max_points = 2000000;    // step budget
+  uint64_t max_points = 50000000;   // step budget (beyond it tasks simply run to completion unscheduled)
 };
 
 struct SchedResult {
